@@ -9,6 +9,7 @@ mod plug;
 mod props;
 mod registry;
 mod rng;
+mod spec;
 mod surgery;
 mod tok;
 
